@@ -90,6 +90,11 @@
 // in block h+1: nothing in BeginBlock, MaxTxSize++ in EndBlock, like migrations/dummy.go).
 // It is consensus-relevant: use the same spec on every replica. nil = no upgrader (as before).
 //
+// ReplicaConfig.UpgradeManager = true instead wires the REAL node-local upgrade manager
+// (go/upgrade.New over a persistent store in the data dir; reopened with checkStatus on
+// Restart); (*Replica).Upgrader() returns it (e.g. to pre-submit a descriptor like an operator
+// would). TxSubmitUpgrade / UpgradeDescriptor build a governance upgrade proposal.
+//
 // Runtimes (runtime.go): RuntimeID, RuntimeDescriptor, TxRegisterRuntime, ComputeNode
 // (an extra node of an existing entity), ExecutorCommit + TxExecutorCommit (finalizes a
 // round of a one-worker runtime), (*Replica).RuntimeState.
